@@ -169,6 +169,12 @@ def elementwise2(fn, a, b, kind, lineno, what):
         same_len(a.cols, b.cols, what + ".cols", lineno)
         fa, fb = a.snapshot2(), b.snapshot2()
         return SArr2.fresh(a.rows, a.cols, lambda i, j: fn(fa(i, j), fb(i, j)), kind, a.enc)
+    if isinstance(a, SArr2) and isinstance(b, SArr) and conc(a.cols) == 1 and conc(b.length) != 1:
+        fa, fb = a.snapshot2(), b.snapshot()
+        return SArr2.fresh(a.rows, b.length, lambda i, j: fn(fa(i, 0), fb(j)), kind, a.enc)
+    if isinstance(a, SArr) and isinstance(b, SArr2) and conc(b.cols) == 1 and conc(a.length) != 1:
+        fa, fb = a.snapshot(), b.snapshot2()
+        return SArr2.fresh(b.rows, a.length, lambda i, j: fn(fa(j), fb(i, 0)), kind, b.enc)
     if isinstance(a, SArr2) and isinstance(b, SArr):
         # (rows, cols) op (cols,)  -> broadcast over rows
         same_len(a.cols, b.length, what + ".bcast", lineno)
